@@ -47,9 +47,9 @@ typedef struct {
 	int seterr;
 } mlist_t;
 
-enum { LO_A, LO_B, LO_BAD, LO_SET, LO_NONJSON, LO_EMPTYKEYS, LO_FREE0, LO_FREEMID, LO_FREELAST, LO_FREEN, LO_FREEMAX, LO_FREEBAD, LO_FREEALL, LO_CLEAR, NLO };
+enum { LO_A, LO_B, LO_BAD, LO_SET, LO_NONJSON, LO_EMPTYKEYS, LO_FREE0, LO_FREEMID, LO_FREELAST, LO_FREEN, LO_FREEMAX, LO_FREEBAD, LO_FREEALL, LO_CLEAR, LO_FREEALIAS, NLO };
 static const char *lo_name[NLO] = { "load(A oct kid=k1)", "load(B EC kid=k1)", "load(bad oct kid=kb)", "load(set[k2,bad ZZ,RSA k1])", "load(non-JSON)", "load({keys:[]})",
-				    "free(0)", "free(mid)", "free(last)", "free(n)", "free(SIZE_MAX)", "free_bad", "free_all", "error_clear" };
+				    "free(0)", "free(mid)", "free(last)", "free(n)", "free(SIZE_MAX)", "free_bad", "free_all", "error_clear", "free(2^32)" };
 static char *DOC_A, *DOC_B, *DOC_SET;
 static const char DOC_BAD[] = "{\"kty\":\"oct\",\"kid\":\"kb\"}";   /* errored item that still carries a kid */
 static const char DOC_NONJSON[] = "{\"keys\":[";
@@ -101,6 +101,7 @@ static long model_list_step(mlist_t *m, int op)
 	case LO_FREELAST: i = m->n - 1; goto del;
 	case LO_FREEN: return 0;
 	case LO_FREEMAX: return 0;
+	case LO_FREEALIAS: return 0;   /* an index whose low 32 bits name item 0 */
 	case LO_FREEBAD:
 		cnt = 0;
 		for (i = 0; i < m->n;)
@@ -139,6 +140,7 @@ static long impl_list_step(jwk_set_t *s, int op)
 	case LO_FREELAST: return jwks_item_free(s, n ? n - 1 : (size_t)-1);
 	case LO_FREEN: return jwks_item_free(s, n);
 	case LO_FREEMAX: return jwks_item_free(s, (size_t)-1);
+	case LO_FREEALIAS: return jwks_item_free(s, (size_t)1 << 32);
 	case LO_FREEBAD: return jwks_item_free_bad(s);
 	case LO_FREEALL: return jwks_item_free_all(s);
 	case LO_CLEAR: jwks_error_clear(s); return -1;
@@ -194,6 +196,13 @@ static int observe_list(jwk_set_t *s, const mlist_t *m, const int *ops, int nops
 			if (!jwks_item_error_msg(it)[0])
 				OBSV("list|bad-item-without-message", "item %d has error but an empty message", i);
 		}
+	}
+	/* indexes far beyond the end, among them those whose low 32 bits (or sign-truncated value) name a live position */
+	for (int i = 0; i <= m->n; i++) {
+		static const size_t off[] = { (size_t)1 << 32, (size_t)1 << 31, (size_t)3 << 32, (size_t)1 << 63, ((size_t)1 << 63) + ((size_t)1 << 32), (size_t)0 - ((size_t)1 << 32) };
+		for (unsigned k = 0; k < sizeof off / sizeof *off; k++)
+			if (off[k] + (size_t)i >= (size_t)m->n && jwks_item_get(s, off[k] + (size_t)i))
+				OBSV("list|get-beyond-end", "get(%#zx) returned an item (n=%d) after [%s]", off[k] + (size_t)i, m->n, lhist_str(ops, nops));
 	}
 	static const char *kids[] = { "k1", "k2", "kb", "kz", "k", "k11", "zz", "" };
 	for (unsigned k = 0; k < sizeof kids / sizeof *kids; k++) {
@@ -737,9 +746,10 @@ static void enumerate_c07(void)
 			memset(buf, 0, sizeof buf);
 			memcpy(buf, cnt[i], L);
 			memcpy(buf + L + 1, "junk", 4);
+			/* the counted readers and the file / FILE* readers see exactly l bytes, an embedded NUL included */
 			for (size_t l = 0; l <= L + 6; l++)
-				if (vf_case("jwks_*_strn with len=%zu on a %zu-byte text %s (NUL and junk follow)", l, L, cnt[i]))
-					c07_case_doc(buf, l, (1u << EP_LOAD_STRN) | (1u << EP_CREATE_STRN), 0);
+				if (vf_case("counted and file readers with %zu bytes of a %zu-byte text %s (NUL and junk follow)", l, L, cnt[i]))
+					c07_case_doc(buf, l, (1u << EP_LOAD_STRN) | (1u << EP_CREATE_STRN) | (1u << EP_FILE) | (1u << EP_FP), 0);
 		}
 		if (vf_case("NULL arguments and a missing file")) {
 			jwk_set_t *s;
@@ -963,6 +973,9 @@ static void c08_compare(const c08cfg_t *c, const json_t *j, const jwk_item_t *it
 		int is_pss = EVP_PKEY_is_a(pk, "RSA-PSS");
 		int want_pss = algs[c->alg_i] && algs[c->alg_i][0] == 'P';
 		vf_obs(is_pss * 2 + want_pss);
+		/* the JWK's alg is what makes an RSA key an RSA-PSS key (a JWK has no other way to say so): every PS* value does, nothing else does */
+		if (is_pss != want_pss)
+			MISMATCH("import|rsa-key-type-differs", "%s with alg %s: the PEM holds an %s key", c->vk->name, algs[c->alg_i] ? algs[c->alg_i] : "(none)", is_pss ? "RSA-PSS" : "RSA");
 	} else if (!strcmp(kty, "EC")) {
 		char grp[64] = "";
 		EVP_PKEY_get_group_name(pk, grp, sizeof grp, NULL);
